@@ -74,6 +74,9 @@ def toNumber? : SVal → Option Float
 
 def posPrefix (line : Nat) : String := "<string>:" ++ toString line ++ ":"
 
+/-- marks a message that may or may not carry a `<string>:N: ` position prefix (see `error`, `assert`) -/
+def optPosMarker : String := hexOfAscii "\x01optpos\x01"
+
 /-- a fault raised by the machine itself: positioned at the current line; wording unspecified ("?") -/
 def fault (m : M) (_what : String) : Step :=
   .inl { m with ctrl := .err (sv (posPrefix m.line ++ " ?")) true }
@@ -431,7 +434,9 @@ def hostCall (m : M) (name : String) (args : List SVal) (via : Bool := false) : 
     let lvl := if a1.isNil then some 1 else intArg? a1
     (match a0, lvl with
      | .str h, some 1 =>
-       if via then unspec "error(msg) called directly by a host function (5.1 adds no position; gopher-lua does)"
+       -- called directly by a host function (pcall(error, msg)): 5.1 adds no position (level 1 is a C function),
+       -- gopher-lua adds the position of the nearest Lua caller; the property does not fix this: either is accepted
+       if via then .inl { m with ctrl := .err (.str (optPosMarker ++ h)) false }
        else .inl { m with ctrl := .err (.str (hx (posPrefix m.line ++ " ") ++ h)) false }
      | .str h, some 2 =>
        (match m.kont.find? (fun f => match f with | .callB .. | .pcallB .. | .xpcallB .. | .coB => true | _ => false) with
@@ -446,7 +451,7 @@ def hostCall (m : M) (name : String) (args : List SVal) (via : Bool := false) : 
     else
       -- luaL_error(L, "%s", luaL_optstring(L, 2, "assertion failed!")): the message must be a string and gains the
       -- position of the caller of assert when that caller is a Lua function
-      let pre := if via then "" else hx (posPrefix m.line ++ " ")
+      let pre := if via then optPosMarker else hx (posPrefix m.line ++ " ")
       if a1.isNil then .inl { m with ctrl := .err (.str (pre ++ hx "assertion failed!")) false }
       else match a1 with
         | .str h => .inl { m with ctrl := .err (.str (pre ++ h)) false }
